@@ -229,7 +229,7 @@ func propC11(r *kernel.Run) {
 			ct := append([]byte(nil), f.ct...)
 			corrupt := "none"
 			mixedPair := false
-			switch tp.Draw(9) {
+			switch tp.Draw(11) {
 			case 0:
 				b := tp.Draw(len(ct) * 8)
 				ct[b/8] ^= 1 << (b % 8)
@@ -259,6 +259,23 @@ func propC11(r *kernel.Run) {
 			case 4:
 				ct = tp.Bytes(tp.Range(1, 80))
 				corrupt = "arbitrary"
+			case 6, 7:
+				// a well-formed envelope without the optional key_info part: the genuine ciphertext (possibly damaged) or random
+				// bytes of a plausible length
+				bi := new(wrapping.BlobInfo)
+				if err := proto.Unmarshal(ct, bi); err == nil {
+					nb := &wrapping.BlobInfo{Ciphertext: append([]byte(nil), bi.Ciphertext...), Iv: bi.Iv}
+					switch tp.Draw(3) {
+					case 0:
+						if len(nb.Ciphertext) > 0 {
+							nb.Ciphertext[tp.Draw(len(nb.Ciphertext))] ^= 1 << tp.Draw(8)
+						}
+					case 1:
+						nb.Ciphertext = tp.Bytes(tp.Range(12, 80))
+					}
+					ct, _ = proto.Marshal(nb)
+				}
+				corrupt = "envelope-without-key-info"
 			case 5:
 				other, err := nodeenrollment.EncryptMessage(ctx, randomMessage(r), otherPair.creds())
 				if err == nil {
